@@ -40,7 +40,7 @@ SHAPES = list(D.SHAPES)
 SKY_COORDNOT = ['bare', 'd', 'r', 'colon', 'hms']
 SKY_SIZENOT = ['', '"', "'", 'd', 'r']
 ANGLENOT = ['', 'd', 'r']
-SEPS = ['paren_comma', 'paren_space', 'space', 'comma', 'paren_comma_space']
+SEPS = ['paren_comma', 'paren_space', 'space', 'comma', 'paren_comma_space', 'paren_tab', 'paren_comma_tab']
 CASES = ['lower', 'upper', 'mixed']
 SIGNS = ['', '+', '-']
 INCS = [None, 0, 1]
@@ -96,6 +96,30 @@ def check_line(res, spec):
     except Exception as exc:
         res.violation(ID, 'parse_raises', case, f'{text!r}: {type(exc).__name__}: {exc}', None, text)
         return
+    if any(ord(ch) > 127 for ch in text):
+        # the same text stored in a (UTF-8) file is read as it is parsed
+        import os
+        from regions import Regions
+        from mc import env as _env
+        path = os.path.join(_env.scratch(), f'c10_{os.getpid()}.reg')
+        try:
+            with open(path, 'w', encoding='utf-8') as fh:
+                fh.write(text)
+            with warnings.catch_warnings():
+                warnings.simplefilter('ignore')
+                Pf = list(Regions.read(path, format='ds9'))
+            same = len(Pf) == len(P) and all(a == b and getattr(a, 'text', None) == getattr(b, 'text', None) for a, b in zip(Pf, P))
+        except Exception as exc:          # noqa: BLE001
+            same = False
+            Pf = f'{type(exc).__name__}: {exc}'
+        finally:
+            if os.path.exists(path):
+                os.remove(path)
+        res.transitions += 1
+        if not same:
+            res.violation(ID, 'file_differs_from_text', case, f'{text!r}: Regions.read of a UTF-8 file holding this text gives '
+                                                              f'{[dict(r.meta) for r in Pf] if isinstance(Pf, list) else Pf}, Regions.parse gives '
+                                                              f'{[dict(r.meta) for r in P]}')
     exp = L.expected()
     if len(P) != len(exp):
         res.violation(ID, 'region_count', case, f'{text!r}: expected {len(exp)} region(s), parser produced {len(P)} (warnings: {w[:2]})', len(exp), {'n': len(P), 'text': text})
